@@ -21,6 +21,10 @@ BOTH_SOLVERS = False
 # ---------------------------------------------------------------------------------------------
 # Origins: where does a switch discriminant come from?
 # ---------------------------------------------------------------------------------------------
+# Calls whose result origin also shows where the (first two) arguments come from: the obligation needs to know WHICH
+# host / WHICH bucket was examined, not only that the function was called.
+ARG_CALLEES = re.compile(r"(^|::)(is_loopback_host|try_consume|refund_one|Mutex::<TokenBucket>::lock)$")
+
 def origin(fn, local, depth=0, seen=None):
     """Readable provenance expression for a local (flow-insensitive, via unique defs)."""
     defs = fn.build_defs()
@@ -90,6 +94,8 @@ def rhs_origin(fn, rhs, depth, seen):
         if re.search(r"<(String|str|&str|&String) as PartialEq", c) or re.search(r"::(starts_with|ends_with)::", c):
             parts = M._split_top(args)
             return "call %s(%s)" % (c, ", ".join(origin(fn, p_, depth + 1, seen) for p_ in parts[:2]))
+        if ARG_CALLEES.search(re.sub(r"::<.*>$", "", c)):
+            return "call %s(%s)" % (c, ", ".join(origin(fn, p_, depth + 1, seen) for p_ in M._split_top(args)[:2]))
         if c.startswith("anyhow::__private::not::"):
             a0 = M._split_top(args)[0] if args else ""
             return "ensure_not(%s)" % origin(fn, a0, depth + 1, seen)
@@ -649,7 +655,7 @@ class FnCheck:
         return r
 
     # HELD(G, B): the guard acquired by G is live at every B
-    def held(self, G, B, assume=(), cut=(), weaker=None):
+    def held(self, G, B, assume=(), cut=(), weaker=None, absent_is_violation=False):
         """`weaker`: an acquisition pattern of the same lock in a weaker mode (e.g. read instead of write).
         If G matches nothing but `weaker` does while B is present, the obligation is violated (the
         region is protected by the weaker mode only) rather than inconclusive."""
@@ -664,6 +670,13 @@ class FnCheck:
                 if r.verdict == "holds":
                     return Result("violated", "B is reachable but %s is never acquired in %s; only the weaker %s is" % (G.name, self.name, weaker.name),
                                   queries=r.queries, seconds=r.seconds, sample={"fn": self.name, "kind": "HELD", "guard": G.name, "B": B.name, "weaker_found": weaker.name})
+            if absent_is_violation and self.count(B) > 0:
+                # opt-in, for acquisition patterns that are robust (typed by the guard): B occurs and the guard is
+                # never acquired anywhere in the function, so every occurrence of B is unprotected
+                r = self.reachable(B, assume=assume, cut=cut)
+                if r.verdict == "holds":
+                    return Result("violated", "B (%s) is reachable and %s is never acquired in %s" % (B.name, G.name, self.name),
+                                  queries=r.queries, seconds=r.seconds, sample={"fn": self.name, "kind": "HELD", "guard": G.name, "B": B.name, "guard_locals": []})
             return Result("inconclusive", "guard acquisition %s matched nothing in %s" % (G.name, self.name))
         guards = set()
         for b in acq_blocks:
